@@ -50,4 +50,12 @@ def run(tier):
     cargs = c04.cleanup_arg_sets()
     cr.bounded_check(run_contract_enum, "cleanup-unused-gates-box", c04.cleanup_gates, cargs,
                      f"{len(cargs)} pairs of cells x (no gate / write gate / hold gate / both unused) (contract evaluated on the real MemoryBuilder.cleanup_unused_gates)")
+    from contracts import c02 as _c02
+    from bounded.contract_enum import run_contract_enum as _rce
+    from bounded import pipeline as _pl
+    _pl.ensure_repo()
+    largs = _c02.locked_colors_arg_sets()
+    cr.bounded_check(_rce, "locked-wire-colours-box", _c02.locked_colors, largs,
+                     f"{len(largs)} plans: every subset of (gated cell, folded cell, bundle OP signal, each CMP signal, gate over a merged bundle): the cell's gates and data on red, "
+                     "the write enable on green, the folded cell's feedback on red (contract evaluated on the real LayoutPlanner._determine_locked_wire_colors)")
     return cr.finish()
